@@ -160,6 +160,13 @@ def sec_ops(nm):
         ("diff-keep", lambda: g.diff(tc, X, keep_coords=True)), ("pad", lambda: pad(temp, g, {X: (1, 2), Y: (0, 1)}, boundary={X: "periodic"})),
         ("repr", lambda: repr(g).replace(X, "<X>").replace(Y, "<Y>")[:0]),
     ]
+    # a Grid with its own default shift for one axis: operations without `to` follow it
+    def _gd():
+        with warnings.catch_warnings():
+            warnings.simplefilter("ignore")
+            return Grid(ds, coords=grid_coords(N), periodic=False, boundary="extend", autoparse_metadata=False, default_shifts={X: {"center": "outer"}})
+
+    calls += [("dshift-interp", lambda: _gd().interp(temp, X)), ("dshift-cumsum", lambda: _gd().cumsum(temp, X)), ("dshift-diff-2", lambda: _gd().diff(temp, [Y, X]))]
     for lab, fn in calls:
         r, e = outcome(N, fn)
         out.append((lab, r, e))
@@ -388,7 +395,10 @@ def sec_faces(nm):
     xc, xg, yc, yg = N["dim_xc"], N["dim_xg"], N["dim_yc"], N["dim_yg"]
     n = 2
     ds = xr.Dataset(coords={xc: (xc, np.arange(n)), xg: (xg, np.arange(n) - 0.5), yc: (yc, np.arange(n)), yg: (yg, np.arange(n) - 0.5), fd: (fd, [0, 1])})
-    fc = {fd: {0: {X: (None, (1, Y, False)), Y: ((1, Y, False), None)}, 1: {Y: ((0, X, False), (0, Y, False))}}}
+    # the names inside the link table are equal to, but not the same objects as, the axis names of the Grid (a table read
+    # from a file or built by string operations)
+    cp = lambda s_: "".join(list(s_))
+    fc = {fd: {0: {cp(X): (None, (1, cp(Y), False)), cp(Y): ((1, cp(Y), False), None)}, 1: {cp(Y): ((0, cp(X), False), (0, cp(Y), False))}}}
     try:
         with warnings.catch_warnings():
             warnings.simplefilter("ignore")
